@@ -10,6 +10,8 @@ Require Import Cirbo.Model.Base Cirbo.Model.Gate Cirbo.Model.Circuit Cirbo.Model
         Cirbo.Model.Connect Cirbo.Model.WF Cirbo.Model.Miter.
 Require Import Cirbo.Proofs.WFSound Cirbo.Proofs.SemMiter Cirbo.Proofs.SemMiterTotal
         Cirbo.Proofs.ArityPreserve Cirbo.Proofs.MiterEntry.
+Require Import Cirbo.Generated.MiterGen Cirbo.Proofs.CircuitAlgosGen Cirbo.Proofs.MiterGen.
+From Coq Require Import ZArith.
 
 (* mismatched shapes are rejected with the dedicated error (whatever the circuits are) *)
 Theorem C13_mismatched_shapes_rejected : forall l r ln rn,
@@ -101,6 +103,26 @@ Proof. exact build_miter_total. Qed.
 
 Theorem C13_default_names_no_clash : forall l r, MiterNoClash l r "circuit1" "circuit2".
 Proof. exact default_names_no_clash. Qed.
+
+(* the model is the code: build_miter of sat/miter.py and generate_pairwise_xor (with add_pairwise_xor,
+   _generate_labels) of synthesis/generation/generation.py are regenerated from the source statement by statement on
+   every run (translator T12, Generated/MiterGen.v: gen_build_miter calls the Circuit methods regenerated by T9 / T10
+   in the order and with the arguments of the source) and equal the hand model the theorems above are about.
+   size_fuel is the fuel of the model's top_sort.  The side condition (the gate maps of the operands have no repeated
+   key, part of WF) comes from the equality of the regenerated connect_circuit with the model (C02_algorithms_regenerated).
+   gen_build_miter_defaults is the call with the default block names of the signature; the generated
+   generate_pairwise_xor takes a Python int (Z), range(n) is empty for n <= 0. *)
+Theorem C13_build_miter_regenerated :
+  (forall l r ln rn, NoDup (dkeys (gates l)) -> NoDup (dkeys (gates r)) ->
+     gen_build_miter size_fuel size_fuel size_fuel l r ln rn = build_miter l r ln rn) /\
+  (forall l r ln rn, WF l -> WF r ->
+     gen_build_miter size_fuel size_fuel size_fuel l r ln rn = build_miter l r ln rn) /\
+  (forall l r, NoDup (dkeys (gates l)) -> NoDup (dkeys (gates r)) ->
+     gen_build_miter_defaults size_fuel size_fuel size_fuel l r = build_miter l r "circuit1" "circuit2") /\
+  (forall z, gen_generate_pairwise_xor z = generate_pairwise_xor (Z.to_nat z)) /\
+  (forall n, gen_generate_pairwise_xor (Z.of_nat n) = generate_pairwise_xor n) /\
+  (forall p z, gen__generate_labels p z = generate_labels p (Z.to_nat z)).
+Proof. exact miter_regenerated. Qed.
 
 (* non-vacuity: two 2-input circuits sharing labels, two outputs (one of them an input),
    and a single-output pair; default block names *)
